@@ -376,9 +376,370 @@ pub fn replay_trusted(input: &Value) -> (bool, String) {
     (false, format!("memo shape {case}: fast path agrees with full validation"))
 }
 
+// ---------------------------------------------------------------------------------------------------------------
+// BOUNDED stand-in for C18 (MerkleBlob::insert / delete / batch_insert are outside Verus's subset: slice patterns,
+// chunk iterators, byte-blob aliasing).  Exhaustive exploration of every operation history up to a stated depth
+// over a fixed alphabet, on the real crate, against a plain map.  Never counted as proved.
+#[derive(Clone, Copy, Debug)]
+enum HOp {
+    Insert { k: i64, h: u8 },                    // InsertLocation::Auto
+    InsertAt { k: i64, h: u8, at: i64, left: bool }, // InsertLocation::Leaf at the index of key `at`
+    InsertRoot { k: i64, h: u8 },                // InsertLocation::AsRoot
+    Delete { k: i64 },
+    Upsert { k: i64, v: i64, h: u8 },
+    Batch { ks: &'static [(i64, u8)] },
+}
+
+const HIST_OPS: &[HOp] = &[
+    HOp::Insert { k: 1, h: 1 }, HOp::Insert { k: 2, h: 2 }, HOp::Insert { k: 3, h: 3 },
+    HOp::Insert { k: 2, h: 1 },                                  // fresh key, hash of key 1
+    HOp::InsertAt { k: 3, h: 3, at: 1, left: true }, HOp::InsertAt { k: 2, h: 2, at: 1, left: false },
+    HOp::InsertRoot { k: 4, h: 4 },
+    HOp::Delete { k: 1 }, HOp::Delete { k: 2 }, HOp::Delete { k: 3 },
+    HOp::Upsert { k: 1, v: 11, h: 11 }, HOp::Upsert { k: 2, v: 12, h: 12 },
+    HOp::Upsert { k: 1, v: 21, h: 2 },                           // hash of key 2
+    HOp::Upsert { k: 3, v: 3, h: 3 },
+    HOp::Batch { ks: &[] }, HOp::Batch { ks: &[(1, 1)] }, HOp::Batch { ks: &[(2, 2), (3, 3)] },
+    HOp::Batch { ks: &[(4, 4), (5, 5), (6, 6), (7, 7), (8, 8)] },
+    HOp::Batch { ks: &[(4, 4), (4, 9)] }, HOp::Batch { ks: &[(5, 5), (6, 5)] },
+    HOp::Batch { ks: &[(3, 3), (4, 4), (5, 5)] },
+];
+
+type HModel = std::collections::BTreeMap<i64, (i64, u8)>;
+
+fn hist_hash(i: u8) -> chia_datalayer::Hash { chia_datalayer::Hash(chia_protocol::Bytes32::new([i; 32])) }
+
+fn hist_apply(b: &mut chia_datalayer::MerkleBlob, op: HOp) -> Result<bool, String> {
+    use chia_datalayer::{InsertLocation, KeyId, Side, ValueId};
+    let r = std::panic::catch_unwind(std::panic::AssertUnwindSafe(|| match op {
+        HOp::Insert { k, h } => b.insert(KeyId(k), ValueId(k), &hist_hash(h), InsertLocation::Auto {}).map(|_| ()),
+        HOp::InsertAt { k, h, at, left } => match b.get_key_index(KeyId(at)) {
+            Ok(index) => b.insert(KeyId(k), ValueId(k), &hist_hash(h),
+                InsertLocation::Leaf { index, side: if left { Side::Left } else { Side::Right } }).map(|_| ()),
+            Err(e) => Err(e),
+        },
+        HOp::InsertRoot { k, h } => b.insert(KeyId(k), ValueId(k), &hist_hash(h), InsertLocation::AsRoot {}).map(|_| ()),
+        HOp::Delete { k } => b.delete(KeyId(k)),
+        HOp::Upsert { k, v, h } => b.upsert(KeyId(k), ValueId(v), &hist_hash(h)),
+        HOp::Batch { ks } => b.batch_insert(ks.iter().map(|(k, h)| ((KeyId(*k), ValueId(*k)), hist_hash(*h))).collect()),
+    }));
+    match r { Ok(r) => Ok(r.is_ok()), Err(_) => Err("operation panicked".into()) }
+}
+
+fn hist_model_apply(m: &mut HModel, op: HOp) {
+    match op {
+        HOp::Insert { k, h } | HOp::InsertAt { k, h, .. } | HOp::InsertRoot { k, h } => { m.insert(k, (k, h)); }
+        HOp::Delete { k } => { m.remove(&k); }
+        HOp::Upsert { k, v, h } => { m.insert(k, (v, h)); }
+        HOp::Batch { ks } => { for (k, h) in ks { m.insert(*k, (*k, *h)); } }
+    }
+}
+
+/// independent recomputation of the root hash over the tree reachable from index 0
+fn hist_root(b: &chia_datalayer::MerkleBlob, idx: chia_datalayer::TreeIndex, depth: u32) -> Result<chia_datalayer::Hash, String> {
+    use chia_datalayer::{internal_hash, Node};
+    if depth > 64 { return Err("tree deeper than 64".into()); }
+    match b.get_node(idx).map_err(|e| e.to_string())? {
+        Node::Leaf(l) => Ok(l.hash),
+        Node::Internal(n) => Ok(internal_hash(&hist_root(b, n.left, depth + 1)?, &hist_root(b, n.right, depth + 1)?)),
+    }
+}
+
+/// everything the statement lets an observer see: content, integrity, reload, root, proofs
+fn hist_observe(b: &chia_datalayer::MerkleBlob, m: &HModel) -> Result<Option<chia_datalayer::Hash>, String> {
+    use chia_datalayer::{KeyId, MerkleBlob, TreeIndex, ValueId};
+    let r = std::panic::catch_unwind(std::panic::AssertUnwindSafe(|| -> Result<Option<chia_datalayer::Hash>, String> {
+        let kv = b.get_keys_values().map_err(|e| format!("get_keys_values: {e}"))?;
+        let want: std::collections::HashMap<KeyId, ValueId> = m.iter().map(|(k, (v, _))| (KeyId(*k), ValueId(*v))).collect();
+        if kv != want { return Err(format!("content {:?} differs from the plain map {:?}", kv, want)); }
+        b.check_integrity().map_err(|e| format!("check_integrity: {e}"))?;
+        let mut c = b.clone();
+        c.check_integrity_on_drop = false;
+        c.calculate_lazy_hashes().map_err(|e| format!("calculate_lazy_hashes: {e}"))?;
+        let root = c.get_hash_at_index(TreeIndex(0)).map_err(|e| format!("get_hash_at_index(0): {e}"))?;
+        if m.is_empty() != root.is_none() { return Err("root presence disagrees with emptiness".into()); }
+        if let Some(root) = root {
+            let indep = hist_root(&c, TreeIndex(0), 0)?;
+            if indep != root { return Err("root hash differs from an independent recomputation over the tree".into()); }
+            for (k, (_, h)) in m {
+                let p = c.get_proof_of_inclusion(KeyId(*k)).map_err(|e| format!("get_proof_of_inclusion({k}): {e}"))?;
+                if !p.valid() { return Err(format!("inclusion proof of key {k} is not valid")); }
+                if p.root_hash() != root { return Err(format!("inclusion proof of key {k} does not end in the root")); }
+                if p.node_hash != hist_hash(*h) { return Err(format!("inclusion proof of key {k} starts from another leaf hash")); }
+            }
+        }
+        let mut re = MerkleBlob::new(b.read_blob().clone()).map_err(|e| format!("reload: {e}"))?;
+        re.check_integrity_on_drop = false;
+        let kv2 = re.get_keys_values().map_err(|e| format!("reload get_keys_values: {e}"))?;
+        if kv2 != want { return Err("reloaded blob has different content".into()); }
+        re.calculate_lazy_hashes().map_err(|e| format!("reload calculate_lazy_hashes: {e}"))?;
+        if re.get_hash_at_index(TreeIndex(0)).map_err(|e| e.to_string())? != root { return Err("reloaded blob has a different root".into()); }
+        Ok(root)
+    }));
+    match r { Ok(r) => r, Err(_) => Err("observation panicked".into()) }
+}
+
+fn hist_dfs(b: &chia_datalayer::MerkleBlob, m: &HModel, root: Option<chia_datalayer::Hash>, path: &mut Vec<usize>, depth: usize,
+            count: &mut u64, fails: &mut Vec<(Vec<usize>, String)>) {
+    if depth == 0 || fails.len() >= 3 { return; }
+    for (i, op) in HIST_OPS.iter().enumerate() {
+        let mut nb = b.clone();
+        nb.check_integrity_on_drop = false;
+        let mut nm = m.clone();
+        path.push(i);
+        *count += 1;
+        let verdict = match hist_apply(&mut nb, *op) {
+            Err(e) => Err(e),
+            Ok(ok) => {
+                if ok { hist_model_apply(&mut nm, *op); }
+                match hist_observe(&nb, &nm) {
+                    Err(e) => Err(format!("after {} operation: {e}", if ok { "a successful" } else { "a failed" })),
+                    Ok(r) => if !ok && r != root { Err("a failed operation changed the root hash".to_string()) } else { Ok(r) },
+                }
+            }
+        };
+        match verdict {
+            Ok(r) => hist_dfs(&nb, &nm, r, path, depth - 1, count, fails),
+            Err(e) => { if fails.len() < 3 { fails.push((path.clone(), e)); } }
+        }
+        path.pop();
+        if fails.len() >= 3 { break; }
+    }
+}
+
+fn hist_describe(path: &[usize]) -> String {
+    path.iter().map(|i| format!("{:?}", HIST_OPS[*i])).collect::<Vec<_>>().join(" ; ")
+}
+
+pub fn datalayer_histories(depth: usize) -> EvalResult {
+    use chia_datalayer::MerkleBlob;
+    let mut res = EvalResult { obligations: 0, discharged: 0, failures: vec![], samples: vec![], exhaustive: false };
+    let prev = std::panic::take_hook();
+    std::panic::set_hook(Box::new(|_| {}));
+    // one worker per first operation
+    let handles: Vec<_> = (0..HIST_OPS.len()).map(|first| std::thread::spawn(move || {
+        let mut count = 0u64; let mut fails = vec![];
+        let mut b = MerkleBlob::new(vec![]).expect("empty blob");
+        b.check_integrity_on_drop = false;
+        let m = HModel::new();
+        // run only the subtree below `first`
+        let mut nb = b.clone(); nb.check_integrity_on_drop = false;
+        let mut nm = m.clone();
+        let mut path = vec![first];
+        count += 1;
+        match hist_apply(&mut nb, HIST_OPS[first]) {
+            Err(e) => fails.push((path.clone(), e)),
+            Ok(ok) => {
+                if ok { hist_model_apply(&mut nm, HIST_OPS[first]); }
+                match hist_observe(&nb, &nm) {
+                    Err(e) => fails.push((path.clone(), format!("after {} operation: {e}", if ok { "a successful" } else { "a failed" }))),
+                    Ok(r) => if !ok && r.is_some() { fails.push((path.clone(), "a failed operation changed the root hash".into())) }
+                             else { hist_dfs(&nb, &nm, r, &mut path, depth - 1, &mut count, &mut fails) },
+                }
+            }
+        }
+        (count, fails)
+    })).collect();
+    for h in handles {
+        let (count, fails) = h.join().unwrap_or((0, vec![(vec![], "worker panicked".to_string())]));
+        res.obligations += count;
+        res.discharged += count - fails.len() as u64;
+        for (path, msg) in fails {
+            if res.failures.len() >= 5 { break; }
+            let name = path.iter().map(|i| i.to_string()).collect::<Vec<_>>().join("-");
+            res.failures.push(json!({"id": format!("datalayer_histories/{name}"), "function": "MerkleBlob",
+                "message": format!("history [{}]: {msg}", hist_describe(&path)),
+                "clause": "content == plain map, integrity passes, failed op leaves it unchanged, reload equivalent, root and proofs agree",
+                "cex": {"unit": "eval", "function": "datalayer_histories", "input": {"history": path}}}));
+        }
+    }
+    std::panic::set_hook(prev);
+    res.samples.push(json!({"obligation": format!("all {} histories of length <= {depth} over {} operations (keys 1..8): observable state == plain map after every step", res.obligations, HIST_OPS.len()), "backend": "native-bounded"}));
+    res
+}
+
+pub fn replay_histories(input: &Value) -> (bool, String) {
+    use chia_datalayer::MerkleBlob;
+    let path: Vec<usize> = input["history"].as_array().map(|a| a.iter().filter_map(|v| v.as_u64().map(|x| x as usize)).collect()).unwrap_or_default();
+    let prev = std::panic::take_hook();
+    std::panic::set_hook(Box::new(|_| {}));
+    let mut b = MerkleBlob::new(vec![]).expect("empty blob");
+    b.check_integrity_on_drop = false;
+    let mut m = HModel::new();
+    let mut root = None;
+    let mut out = (false, format!("history [{}]: holds", hist_describe(&path)));
+    for (n, i) in path.iter().enumerate() {
+        if *i >= HIST_OPS.len() { out = (false, "bad op index".into()); break; }
+        match hist_apply(&mut b, HIST_OPS[*i]) {
+            Err(e) => { out = (true, format!("step {n} {:?}: {e}", HIST_OPS[*i])); break; }
+            Ok(ok) => {
+                if ok { hist_model_apply(&mut m, HIST_OPS[*i]); }
+                match hist_observe(&b, &m) {
+                    Err(e) => { out = (true, format!("step {n} {:?} returned {}: {e}", HIST_OPS[*i], if ok { "Ok" } else { "Err" })); break; }
+                    Ok(r) => { if !ok && r != root { out = (true, format!("step {n} {:?} failed but changed the root", HIST_OPS[*i])); break; } root = r; }
+                }
+            }
+        }
+    }
+    std::panic::set_hook(prev);
+    out
+}
+
+// ---------------------------------------------------------------------------------------------------------------
+// Ground obligations for C05 (and the verdict-agreement clause of C15): for every AGG_SIG opcode, coin amounts at every
+// canonical-integer length boundary and pair multiplicities 1 and 2, the block path (no cache, cold cache, warm cache)
+// and the mempool path must accept exactly the aggregate signature over the prescribed texts - message ‖ coin attributes
+// selected by the opcode ‖ that opcode's domain constant - each occurrence signed once, and reject a signature with an
+// occurrence missing or over a text that differs in one place.  The expected texts are computed here, independently.
+fn sg_canon(v: u64) -> Vec<u8> {
+    // minimal big-endian two's complement of a non-negative integer (CLVM canonical form)
+    if v == 0 { return vec![]; }
+    let b = v.to_be_bytes();
+    let mut i = 0;
+    while b[i] == 0 { i += 1; }
+    let mut out = vec![];
+    if b[i] & 0x80 != 0 { out.push(0); }
+    out.extend_from_slice(&b[i..]);
+    out
+}
+
+fn sg_text(op: u16, msg: &[u8], coin: &chia_protocol::Coin, k: &chia_consensus::consensus_constants::ConsensusConstants) -> Vec<u8> {
+    let parent = coin.parent_coin_info.as_slice();
+    let puzzle = coin.puzzle_hash.as_slice();
+    let amount = sg_canon(coin.amount);
+    let coin_id = {
+        let mut h = chia_sha2::Sha256::new();
+        h.update(parent); h.update(puzzle); h.update(&amount);
+        h.finalize()
+    };
+    let mut t = msg.to_vec();
+    match op {
+        43 => { t.extend_from_slice(parent); t.extend_from_slice(k.agg_sig_parent_additional_data.as_slice()); }
+        44 => { t.extend_from_slice(puzzle); t.extend_from_slice(k.agg_sig_puzzle_additional_data.as_slice()); }
+        45 => { t.extend_from_slice(&amount); t.extend_from_slice(k.agg_sig_amount_additional_data.as_slice()); }
+        46 => { t.extend_from_slice(puzzle); t.extend_from_slice(&amount); t.extend_from_slice(k.agg_sig_puzzle_amount_additional_data.as_slice()); }
+        47 => { t.extend_from_slice(parent); t.extend_from_slice(&amount); t.extend_from_slice(k.agg_sig_parent_amount_additional_data.as_slice()); }
+        48 => { t.extend_from_slice(parent); t.extend_from_slice(puzzle); t.extend_from_slice(k.agg_sig_parent_puzzle_additional_data.as_slice()); }
+        50 => { t.extend_from_slice(&coin_id); t.extend_from_slice(k.agg_sig_me_additional_data.as_slice()); }
+        _ => {}
+    }
+    t
+}
+
+fn sg_case(op: u16, amount: u64, count: usize, spends_n: usize) -> Vec<(String, bool, bool, bool, bool, bool)> {
+    use chia_bls::{sign, BlsCache, SecretKey, Signature};
+    use chia_consensus::consensus_constants::TEST_CONSTANTS;
+    use chia_consensus::flags::MEMPOOL_MODE;
+    use chia_consensus::run_block_generator::run_block_generator2;
+    use chia_consensus::solution_generator::solution_generator;
+    use chia_consensus::spendbundle_validation::validate_clvm_and_signature;
+    use chia_protocol::{Coin, CoinSpend, Program, SpendBundle};
+    let sk = SecretKey::from_seed(&[7; 32]);
+    let pk = sk.public_key();
+    let msg: &[u8] = b"hello";
+    let puzzle = [1u8];
+    let ph = clvm_utils::tree_hash_atom(&puzzle).to_bytes();
+    let one = [[0xff, 0xff, op as u8, 0xff, 0xb0].as_slice(), pk.to_bytes().as_slice(), [0xff, 0x85].as_slice(), msg, [0x80].as_slice()].concat();
+    let mut spends = vec![];
+    let mut texts: Vec<Vec<u8>> = vec![];
+    for s in 0..spends_n {
+        let mut solution = vec![];
+        for _ in 0..count { solution.extend_from_slice(&one); }
+        solution.push(0x80);
+        let coin = Coin::new([0x44 + s as u8; 32].into(), ph.into(), amount);
+        for _ in 0..count { texts.push(sg_text(op, msg, &coin, &TEST_CONSTANTS)); }
+        spends.push(CoinSpend::new(coin, Program::new(puzzle.as_slice().into()), solution.into()));
+    }
+    let mut full = Signature::default();
+    for t in &texts { full += &sign(&sk, t); }
+    let mut missing = Signature::default();
+    for t in texts.iter().skip(1) { missing += &sign(&sk, t); }
+    let mut tampered = Signature::default();
+    for (i, t) in texts.iter().enumerate() {
+        let mut t = t.clone();
+        if i == 0 { let n = t.len(); t[n - 1] ^= 1; }
+        tampered += &sign(&sk, &t);
+    }
+    let mut out = vec![];
+    for (name, sig, want) in [("full", &full, true), ("one-occurrence-missing", &missing, false), ("one-text-differs", &tampered, false)] {
+        let generator = solution_generator(spends.iter().map(|s| (s.coin, s.puzzle_reveal.as_ref(), s.solution.as_ref()))).expect("solution_generator");
+        let no_refs: [&[u8]; 0] = [];
+        let block = |cache: Option<&BlsCache>| run_block_generator2(&generator, no_refs, TEST_CONSTANTS.max_block_cost_clvm, MEMPOOL_MODE, sig, cache, &TEST_CONSTANTS).is_ok();
+        let plain = block(None);
+        let cache = BlsCache::default();
+        let cold = block(Some(&cache));
+        let warm = block(Some(&cache));
+        let bundle = SpendBundle { coin_spends: spends.clone(), aggregated_signature: sig.clone() };
+        let mempool = validate_clvm_and_signature(&bundle, TEST_CONSTANTS.max_block_cost_clvm, &TEST_CONSTANTS, MEMPOOL_MODE).is_ok();
+        out.push((name.to_string(), want, plain, cold, warm, mempool));
+    }
+    out
+}
+
+const SG_AMOUNTS: &[u64] = &[0, 1, 0x7f, 0x80, 0xff, 0x100, 0x7fff, 0x8000, 0xffff, 0x1_0000, 0x7f_ffff, 0x80_0000, 0x7fff_ffff, 0x8000_0000,
+    0x7f_ffff_ffff, 0x80_0000_0000, 0x7fff_ffff_ffff, 0x8000_0000_0000, 0x7f_ffff_ffff_ffff, 0x80_0000_0000_0000,
+    0x7fff_ffff_ffff_ffff, 0x8000_0000_0000_0000, u64::MAX];
+
+fn sg_shapes() -> Vec<(u16, u64, usize, usize)> {
+    let mut v = vec![];
+    for op in 43u16..=50 {
+        let amount_sensitive = matches!(op, 45 | 46 | 47 | 50);
+        for (i, amt) in SG_AMOUNTS.iter().enumerate() {
+            if !amount_sensitive && i != 1 && i != 15 { continue; }
+            v.push((op, *amt, 1, 1));
+        }
+        v.push((op, 1_000_000_000, 2, 1));   // the same condition twice in one spend
+        v.push((op, 1_000_000_000, 1, 2));   // the same (key, message) asked for by two coins
+    }
+    v
+}
+
+pub fn sig_paths_ground() -> EvalResult {
+    let mut res = EvalResult { obligations: 0, discharged: 0, failures: vec![], samples: vec![], exhaustive: true };
+    let shapes = sg_shapes();
+    let handles: Vec<_> = shapes.chunks((shapes.len() + 15) / 16).map(|c| { let c = c.to_vec(); std::thread::spawn(move || {
+        c.into_iter().map(|(op, amt, count, n)| ((op, amt, count, n), sg_case(op, amt, count, n))).collect::<Vec<_>>()
+    }) }).collect();
+    for h in handles {
+        for ((op, amt, count, n), rows) in h.join().unwrap_or_default() {
+            for (name, want, plain, cold, warm, mempool) in rows {
+                res.obligations += 1;
+                if plain == want && cold == want && warm == want && mempool == want { res.discharged += 1; }
+                else if res.failures.len() < 6 {
+                    res.failures.push(json!({"id": format!("sig_paths_ground/op{op}-amount{amt:#x}-x{count}-spends{n}-{name}"), "function": "validate_signature / validate_clvm_and_signature",
+                        "message": format!("AGG_SIG opcode {op}, coin amount {amt:#x}, {count} condition(s) in each of {n} spend(s), signature '{name}': required verdict {want}; block no-cache {plain}, cold cache {cold}, warm cache {warm}, mempool {mempool}"),
+                        "clause": "all paths accept exactly the aggregate signature over message ‖ attributes(op) ‖ domain(op), once per occurrence",
+                        "cex": {"unit": "eval", "function": "sig_paths_ground", "input": {"op": op, "amount": amt, "count": count, "spends": n, "sig": name}}}));
+                }
+            }
+        }
+    }
+    res.samples.push(json!({"obligation": format!("{} ground verdicts: 8 AGG_SIG opcodes x amounts at every canonical-length boundary x multiplicities x 3 signatures, 4 paths each", res.obligations), "backend": "native-eval"}));
+    res
+}
+
+pub fn replay_sig_paths(input: &Value) -> (bool, String) {
+    let op = input["op"].as_u64().unwrap_or(50) as u16;
+    let amt = input["amount"].as_u64().unwrap_or(1);
+    let count = input["count"].as_u64().unwrap_or(1) as usize;
+    let n = input["spends"].as_u64().unwrap_or(1) as usize;
+    let sig = input["sig"].as_str().unwrap_or("full");
+    for (name, want, plain, cold, warm, mempool) in sg_case(op, amt, count, n) {
+        if name == sig {
+            let bad = !(plain == want && cold == want && warm == want && mempool == want);
+            return (bad, format!("opcode {op} amount {amt:#x} x{count} spends {n} sig {name}: required {want}; block {plain}, cold {cold}, warm {warm}, mempool {mempool}"));
+        }
+    }
+    (false, "unknown signature variant".into())
+}
+
 pub fn run(task: &str) -> Option<EvalResult> {
+    if let Some(d) = task.strip_prefix("datalayer_histories:") {
+        return Some(datalayer_histories(d.parse().unwrap_or(3)));
+    }
     match task {
         "trusted_paths_ground" => Some(trusted_paths_ground()),
+        "sig_paths_ground" => Some(sig_paths_ground()),
         "pos_v2_hash" => Some(pos_v2_hash()),
         "datalayer_ground" => Some(datalayer_ground()),
         "bls_cache_ground" => Some(bls_cache_ground()),
